@@ -2,6 +2,8 @@
 From Coq Require Import ZArith List Arith.
 From NTT Require Import Setters.
 From NTT Require SetterSpec GenSetterEq.
+From NTT Require Setters SetterSpec SetMpzSpec.
+From NTT.gen Require GenLoop.
 From NTT.gen Require GenLoop.
 Local Open Scope Z_scope.
 
@@ -53,3 +55,23 @@ Proof.
          (GenSetterEq.source_set_list_u64 n nm P vals data0 f l reduce fuel Hfl Hd Hs Hn Hnm Hl Hfu HPl))).
 Qed.
 Print Assumptions C15_source_set_list.
+
+(* THE BIG-INTEGER SETTER OF THE SOURCE: poly::set_mpz(It first, It last) of gmp.hpp at It = const mpz_class* (the instance behind every
+   mpz_t / mpz_class / array / initializer-list setter, constructor and operator=), translated on every run into gen/GenLoop.v
+   (mpz_fdiv_ui with GmpSem's meaning: the floor remainder): for ARBITRARY integers of any sign and magnitude it writes exactly
+   Setters.set_list with the reduction on -- value i reduced into every modulus and zero fill when k <= degree, slice by slice when
+   k = degree x moduli, throws (no result, nothing written) otherwise. *)
+Theorem C15_source_set_mpz : forall n nm P vals data0 f l fuel, (f <= l <= length vals)%nat -> length data0 = (nm * n)%nat ->
+  Z.of_nat (nm * n) < 2 ^ 61 -> Z.of_nat n < 2 ^ 61 -> Z.of_nat nm < 2 ^ 61 -> Z.of_nat (length vals) < 2 ^ 61 -> (n < fuel)%nat -> (nm <= length P)%nat ->
+  let out := Setters.set_list n nm (fun cm => List.nth cm P 0) true (List.firstn (l - f) (List.skipn f vals)) data0 in
+  let res := option_map (fun s : SetterSpec.SS => fst (fst s)) in
+  (List.Forall (fun p => 0 < p < 2 ^ 16) (List.firstn nm P) -> res (GenLoop.gen_set_mpz_u16 fuel (Z.of_nat n) data0 vals (Z.of_nat f) (Z.of_nat l) (Z.of_nat nm) P) = out) /\
+  (List.Forall (fun p => 0 < p < 2 ^ 32) (List.firstn nm P) -> res (GenLoop.gen_set_mpz_u32 fuel (Z.of_nat n) data0 vals (Z.of_nat f) (Z.of_nat l) (Z.of_nat nm) P) = out) /\
+  (List.Forall (fun p => 0 < p < 2 ^ 64) (List.firstn nm P) -> res (GenLoop.gen_set_mpz_u64 fuel (Z.of_nat n) data0 vals (Z.of_nat f) (Z.of_nat l) (Z.of_nat nm) P) = out).
+Proof.
+  exact (fun n nm P vals data0 f l fuel Hfl Hd Hs Hn Hnm Hl Hfu HPl =>
+    conj (SetMpzSpec.source_set_mpz_u16 n nm P vals data0 f l fuel Hfl Hd Hs Hn Hnm Hl Hfu HPl)
+   (conj (SetMpzSpec.source_set_mpz_u32 n nm P vals data0 f l fuel Hfl Hd Hs Hn Hnm Hl Hfu HPl)
+         (SetMpzSpec.source_set_mpz_u64 n nm P vals data0 f l fuel Hfl Hd Hs Hn Hnm Hl Hfu HPl))).
+Qed.
+Print Assumptions C15_source_set_mpz.
